@@ -329,7 +329,7 @@ impl<'a> Interp<'a> {
                 self.push_packet(s, p, m, *notify);
                 Ok(())
             }
-            Op::Publish { c, topic, qos, retain, size, props, notify } => {
+            Op::Publish { c, topic, qos, retain, size, props, notify, dup } => {
                 let Some(s) = self.live_serial(*c) else {
                     self.stats.skipped += 1;
                     return Ok(());
@@ -357,7 +357,7 @@ impl<'a> Interp<'a> {
                         self.pub_aliases[s].insert(a, topic.clone());
                     }
                 }
-                let publish = make_publish(wire_topic, &payload, *qos, pkid, *retain, false);
+                let publish = make_publish(wire_topic, &payload, *qos, pkid, *retain, *dup && *qos > 0);
                 let p = Packet::Publish(publish, props.as_ref().map(to_props));
                 let m = MPacket::Publish {
                     serial: serial_no,
@@ -502,6 +502,16 @@ impl<'a> Interp<'a> {
                     self.stats.skipped += 1;
                     return Ok(());
                 };
+                // region R8 (see Op::Unsubscribe): an UNSUBSCRIBE for a filter the connection
+                // does not hold gets no UNSUBACK
+                if self.flags.avoid.unsub_shape && self.strict(*c) {
+                    if let Raw::Unsubscribe { filter } = pkt {
+                        if !self.effective_subs(s).iter().any(|x| x.0 == *filter && x.2) {
+                            self.stats.excluded_known += 1;
+                            return Ok(());
+                        }
+                    }
+                }
                 let pkid = self.next_pkid(*c);
                 let mut p = raw_packet(pkt, pkid);
                 let m = match pkt {
